@@ -98,7 +98,10 @@ func readBlobString(i *bufio.Reader) (m RedisMessage, err error) {
 				m.setString(sb.String())
 				return m, nil
 			}
-			sb.Grow(int(length))
+			if length < 0 {
+				return RedisMessage{}, errors.New(unexpectedLength + strconv.FormatInt(length, 10))
+			}
+			sb.Grow(int(min(length, maxPreallocBytes)))
 			if _, err = io.CopyN(&sb, i, length); err != nil {
 				return RedisMessage{}, err
 			}
@@ -211,14 +214,46 @@ func readB(i *bufio.Reader) (*byte, int64, error) {
 	if length == -1 {
 		return nil, 0, errOldNull
 	}
-	bs := make([]byte, length)
-	if _, err = io.ReadFull(i, bs); err != nil {
+	bs, err := readN(i, length)
+	if err != nil {
 		return nil, 0, err
 	}
 	if _, err = i.Discard(2); err != nil {
 		return nil, 0, err
 	}
 	return unsafe.SliceData(bs), int64(len(bs)), nil
+}
+
+// The lengths of strings and aggregates are declared by the peer. They are validated, trusted for an
+// up-front allocation only up to these limits, and the buffers then grow (doubling) as the data
+// really arrives, so that a bogus length can neither panic in make() nor allocate memory that is
+// out of proportion to the bytes received.
+const (
+	maxPreallocBytes = 64 << 10
+	maxPreallocMsgs  = 16
+)
+
+// readN reads exactly length bytes.
+func readN(i *bufio.Reader, length int64) ([]byte, error) {
+	if length < 0 {
+		return nil, errors.New(unexpectedLength + strconv.FormatInt(length, 10))
+	}
+	bs := make([]byte, min(length, maxPreallocBytes))
+	n := 0
+	for {
+		if _, err := io.ReadFull(i, bs[n:]); err != nil {
+			if err == io.EOF && n > 0 {
+				err = io.ErrUnexpectedEOF
+			}
+			return nil, err
+		}
+		if n = len(bs); int64(n) == length {
+			return bs, nil
+		}
+		grown := make([]byte, min(length, int64(n)*2))
+		copy(grown, bs)
+		bs = grown
+	}
 }
 
 func readE(i *bufio.Reader) (*RedisMessage, int64, error) {
@@ -238,8 +273,16 @@ func readE(i *bufio.Reader) (*RedisMessage, int64, error) {
 func readA(i *bufio.Reader, length int64) (*RedisMessage, int64, error) {
 	var err error
 
-	msgs := make([]RedisMessage, length)
+	if length < 0 {
+		return nil, 0, errors.New(unexpectedLength + strconv.FormatInt(length, 10))
+	}
+	msgs := make([]RedisMessage, min(length, maxPreallocMsgs))
 	for n := range length {
+		if n == int64(len(msgs)) {
+			grown := make([]RedisMessage, min(length, n*2))
+			copy(grown, msgs)
+			msgs = grown
+		}
 		if msgs[n], err = readNextMessage(i); err != nil {
 			return nil, 0, err
 		}
@@ -388,5 +431,6 @@ func flushCmd(o *bufio.Writer, cmd []string) (err error) {
 const (
 	unexpectedNoCRLF   = "received unexpected simple string message ending without CRLF"
 	unexpectedNumByte  = "received unexpected number byte: "
+	unexpectedLength   = "received unexpected length: "
 	unknownMessageType = "received unknown message type: "
 )
